@@ -311,12 +311,16 @@ class GraphBuilder:
             else:
                 # Pad omitted trailing optional inputs.
                 import inspect
-                try:
-                    nparams = len(inspect.signature(nd["ref"]).parameters)
-                    while len(arrays) < nparams:
-                        arrays.append(None)
-                except (TypeError, ValueError):
-                    pass
+                import types
+                # Only python functions declare their optional inputs; numpy ufuncs passed
+                # directly as references (np.abs, np.isnan) report unrelated parameters.
+                if isinstance(nd["ref"], (types.FunctionType, types.MethodType)):
+                    try:
+                        nparams = len([p for p in inspect.signature(nd["ref"]).parameters.values() if p.kind in (p.POSITIONAL_ONLY, p.POSITIONAL_OR_KEYWORD)])
+                        while len(arrays) < nparams:
+                            arrays.append(None)
+                    except (TypeError, ValueError):
+                        pass
             with np.errstate(all="ignore"):
                 res = nd["ref"](*arrays)
             if not isinstance(res, (tuple, list)):
